@@ -144,12 +144,19 @@ func (o *oracle) judge(c *Case) *verdict {
 		set(rDelta, new(big.Int).Sub(gap, u(uint64(c.Delta))))
 		set(rRange, new(big.Int).Sub(u(uint64(c.MaxExpiry)), gap))
 	}
-	set(rMin, new(big.Int).Sub(out, u(c.Min)))
-	if c.Max == 0 {
-		// no maximum advertised: the rule holds and has no threshold
-		v.holds[rMax] = true
+	if c.Shaper == "custom" {
+		// An aux traffic shaper that declares the HTLC a custom-channel HTLC
+		// waives the advertised amount limits (documented in
+		// validateHtlcAmount); both rules hold and have no threshold.
+		v.holds[rMin], v.holds[rMax] = true, true
 	} else {
-		set(rMax, new(big.Int).Sub(u(c.Max), out))
+		set(rMin, new(big.Int).Sub(out, u(c.Min)))
+		if c.Max == 0 {
+			// no maximum advertised: the rule holds and has no threshold
+			v.holds[rMax] = true
+		} else {
+			set(rMax, new(big.Int).Sub(u(c.Max), out))
+		}
 	}
 	// too soon: outT > h + rd  <=>  outT - h - rd - 1 >= 0
 	m := new(big.Int).Sub(outT, h)
@@ -160,7 +167,13 @@ func (o *oracle) judge(c *Case) *verdict {
 	m = new(big.Int).Add(h, u(uint64(c.MaxExpiry)))
 	m.Sub(m, outT)
 	set(rTooFar, m)
-	set(rBandwidth, new(big.Int).Sub(u(c.Bandwidth), out))
+	// spendable bandwidth: the channel's, unless an aux traffic shaper handles
+	// the channel and reports its own figure.
+	bw := c.Bandwidth
+	if c.Shaper == "bw" {
+		bw = c.AuxBW
+	}
+	set(rBandwidth, new(big.Int).Sub(u(bw), out))
 
 	v.accept = true
 	for _, r := range rules {
@@ -179,6 +192,7 @@ func (o *oracle) judge(c *Case) *verdict {
 	chk(uint64(c.RejectDelta) <= maxCfgDelta, "reject_delta>2^16")
 	chk(uint64(c.MaxExpiry) <= maxCfgDelta, "max_expiry>2^16")
 	chk(c.Out <= maxChanMsat, "out_amt>max_chan")
+	chk(c.AuxBW <= maxChanMsat, "aux_bandwidth>max_chan")
 	if c.Kind == kindForward {
 		ir := int64(c.IR)
 		if ir < 0 {
@@ -285,6 +299,22 @@ var failureNames = map[string][]int{
 	"ExpiryTooSoon":           {rTooSoon},
 	"ExpiryTooFar":            {rTooFar, rRange},
 	"IncorrectCltvExpiry":     {rDelta},
+}
+
+// updateRules are the rules whose BOLT-4 failure embeds a channel_update.
+var updateRules = []int{rNoLoss, rFee, rMin, rMax, rBandwidth, rTooSoon, rDelta}
+
+// failureRules returns the rules a failure code may name in the case's
+// configuration. When the link cannot obtain any channel_update
+// (update_source "fetcherr") a failure that must embed one degrades to
+// TemporaryNodeFailure; it then stands for the rules in updateRules. In every
+// other configuration TemporaryNodeFailure names no rule of the statement.
+func failureRules(code string, c *Case) ([]int, bool) {
+	if code == "TemporaryNodeFailure" && c.UpdSrc == "fetcherr" {
+		return updateRules, true
+	}
+	r, ok := failureNames[code]
+	return r, ok
 }
 
 // classKey packs the boundary situation of a case into one integer:
